@@ -118,6 +118,30 @@ CHECKS = {
              "built with search=False.",
         ref="DESIGN.md section 3 C20",
     ),
+
+    "C14": dict(
+        technique="Hypothesis PBT with a deterministic line-count fuel (sys.monitoring) for termination; exact-geometry, lattice, differential (own rotation loop) and metamorphic (translation) oracles",
+        text="Generated convex outlines (3..12 vertices, both orientations, touching axes/origin, demo outline), spacings, "
+             "rotations, perimeter ratios and interior convex no-go zones through gen_borehole_config / two_space_gen_bhc / "
+             "field_optimization_*: termination within a line-event budget, boreholes inside the outline and outside zones, "
+             "minimum spacing, exact lattice on axis-aligned rectangles, optimiser = first best rotation, rigid translation. "
+             "Sampling. Four input-side weak spots of RowWise are recorded as known findings (KF-C14-1..4) and excluded by "
+             "signature; two non-termination defects were repaired.",
+        note="Fuel budget 2e6 + 40 n^2 line events (>= 100x terminating runs); floor() knife edges excluded by perturbing the "
+             "spacing by 1e-9; lots narrower than 1.3 spacings are outside the domain.",
+        ref="DESIGN.md section 3 C14",
+    ),
+    "C01": dict(
+        technique="Hypothesis PBT over complete design scenarios through the public API; oracle: fresh-object re-simulation of the returned design against the limits",
+        text="Scenarios (6 methods x 4 pipe types x 2 flow types x load family x calibrated load scale x media x horizon x limits "
+             "x height window x cap x continue flag) run through GHEManager.find_design with the long-time g replaced by a "
+             "surrogate (L2, bulk) and with pygfunction (L3, few); every design returned without the escape is re-simulated "
+             "in fresh objects and must respect both limits within 1e-3 K; GHE.size alone on synthetic g families. Sampling.",
+        note="L2 seam assumption: search and sizing consume only what GHE.simulate/cost return. Re-simulation follows the "
+             "tool's documented pipeline (hybrid loads fixed at construction height). KF-C01-1 (discontinuity at the STS/LTS "
+             "join) recorded.",
+        ref="DESIGN.md section 3 C01",
+    ),
 }
 
 NOT_YET = {}
